@@ -331,115 +331,141 @@ def fn_to_sympy(
         return None
 
 
-def _handle_fn_body(body: list[ast.stmt], ctx: Context) -> sympy.Expr | None:
-    pieces = []
-    remaining_body = list(body)
+def _merge_branches(
+    condition: Any,
+    if_expr: sympy.Expr,
+    else_expr: sympy.Expr,
+) -> sympy.Expr:
+    """Value that is `if_expr` where the condition holds and `else_expr` elsewhere."""
+    if if_expr == else_expr:
+        return if_expr
+    else_pieces = (
+        else_expr.args
+        if isinstance(else_expr, sympy.Piecewise)
+        else ((else_expr, True),)
+    )
+    return sympy.Piecewise((if_expr, condition), *else_pieces)
 
-    while remaining_body:
-        node = remaining_body.pop(0)
 
-        if isinstance(node, ast.If):
-            condition = _handle_expr(node.test, ctx)
-            if_expr = _handle_fn_body(node.body, ctx)
-            pieces.append((if_expr, condition))
+def _handle_assign(node: ast.Assign, ctx: Context) -> None:
+    if len(node.targets) != 1:
+        msg = "Chained assignments are not supported"
+        raise NotImplementedError(msg)
 
-            # If there's an else clause
-            if node.orelse:
-                # Check if it's an elif (an If node in orelse)
-                if len(node.orelse) == 1 and isinstance(node.orelse[0], ast.If):
-                    # Push the elif back to the beginning of remaining_body to process next
-                    remaining_body.insert(0, node.orelse[0])
-                else:
-                    # It's a regular else
-                    else_expr = _handle_fn_body(node.orelse, ctx)  # FIXME: copy here
-                    pieces.append((else_expr, True))
-                    break  # We're done with this chain
+    target = node.targets[0]
+    # Tuple assignments like c, d = a, b
+    if isinstance(target, ast.Tuple):
+        if not isinstance(node.value, ast.Tuple) or not all(
+            isinstance(i, ast.Name) for i in target.elts
+        ):
+            msg = "Only unpacking of literal tuples into names is supported"
+            raise NotImplementedError(msg)
+        # The right hand side is evaluated completely before anything is bound
+        values = [_handle_expr(i, ctx) for i in node.value.elts]
+        for name, value in zip(target.elts, values, strict=True):
+            if value is None:
+                msg = "Could not parse assigned value"
+                raise ValueError(msg)
+            ctx.symbols[cast(ast.Name, name).id] = value
+        return
 
-            elif not remaining_body and any(
-                isinstance(n, ast.Return) for n in body[body.index(node) + 1 :]
-            ):
-                else_expr = _handle_fn_body(
-                    body[body.index(node) + 1 :], ctx
-                )  # FIXME: copy here
-                pieces.append((else_expr, True))
+    if not isinstance(target, ast.Name):
+        msg = "Only single variable assignments are supported"
+        raise TypeError(msg)
+    value = _handle_expr(node.value, ctx)
+    if value is None:
+        msg = "Could not parse assigned value"
+        raise ValueError(msg)
+    ctx.symbols[target.id] = value
 
-        elif isinstance(node, ast.Return):
+
+def _handle_import(node: ast.Import | ast.ImportFrom, ctx: Context) -> None:
+    if isinstance(node, ast.Import):
+        for alias in node.names:
+            name = alias.name
+            ctx.modules[name] = importlib.import_module(name)
+        return
+
+    package = cast(str, node.module)
+    module = importlib.import_module(package)
+    contents = dict(inspect.getmembers(module))
+    for alias in node.names:
+        name = alias.name
+        el = contents[name]
+        if isinstance(el, float):
+            ctx.symbols[name] = sympy.Float(el)
+        elif callable(el):
+            ctx.fns[name] = el
+        elif isinstance(el, ModuleType):
+            ctx.modules[name] = el
+        else:
+            _LOGGER.debug("Skipping import %s", node)
+
+
+def _handle_block(
+    body: list[ast.stmt],
+    ctx: Context,
+    continuation: tuple[list[ast.stmt], ...] = (),
+) -> sympy.Expr:
+    """Evaluate statements in order and return the value the function returns.
+
+    `continuation` are the statements that follow this block in the enclosing
+    blocks (innermost first), they are evaluated if this block ends without
+    returning. A conditional is evaluated path by path: both branches are followed
+    to their return, each with its own copy of the local variables.
+    """
+    for idx, node in enumerate(body):
+        if isinstance(node, ast.Return):
             if (value := node.value) is None:
                 msg = "Return value cannot be None"
                 raise ValueError(msg)
+            if (expr := _handle_expr(value, ctx)) is None:
+                msg = "Could not parse return value"
+                raise ValueError(msg)
+            return expr
 
-            expr = _handle_expr(value, ctx)
-            if not pieces:
-                return expr
-            pieces.append((expr, True))
-            break
+        if isinstance(node, ast.If):
+            condition = _handle_expr(node.test, ctx)
+            rest = (body[idx + 1 :], *continuation)
+            if_expr = _handle_block(
+                node.body,
+                ctx.updated(symbols=dict(ctx.symbols)),
+                rest,
+            )
+            else_expr = _handle_block(
+                node.orelse,
+                ctx.updated(symbols=dict(ctx.symbols)),
+                rest,
+            )
+            return _merge_branches(condition, if_expr, else_expr)
 
-        elif isinstance(node, ast.Assign):
-            # Handle tuple assignments like c, d = a, b
-            if isinstance(node.targets[0], ast.Tuple):
-                # Handle tuple unpacking
-                target_elements = node.targets[0].elts
+        if isinstance(node, ast.Assign):
+            _handle_assign(node, ctx)
 
-                if isinstance(node.value, ast.Tuple):
-                    # Direct unpacking like c, d = a, b
-                    value_elements = node.value.elts
-                    for target, value_expr in zip(
-                        target_elements, value_elements, strict=True
-                    ):
-                        if isinstance(target, ast.Name):
-                            expr = _handle_expr(value_expr, ctx)
-                            if expr is None:
-                                return None
-                            ctx.symbols[target.id] = expr
-                else:
-                    # Handle potential iterable unpacking
-                    value = _handle_expr(node.value, ctx)
-            else:
-                # Regular single assignment
-                if not isinstance(target := node.targets[0], ast.Name):
-                    msg = "Only single variable assignments are supported"
-                    raise TypeError(msg)
-                target_name = target.id
-                value = _handle_expr(node.value, ctx)
-                if value is None:
-                    return None
-                ctx.symbols[target_name] = value
+        elif isinstance(node, ast.Import | ast.ImportFrom):
+            _handle_import(node, ctx)
 
-        elif isinstance(node, ast.Import):
-            for alias in node.names:
-                name = alias.name
-                ctx.modules[name] = importlib.import_module(name)
+        elif isinstance(node, ast.Pass) or (
+            isinstance(node, ast.Expr)
+            and isinstance(node.value, ast.Constant)
+            and isinstance(node.value.value, str)
+        ):
+            continue  # pass and docstrings
 
-        elif isinstance(node, ast.ImportFrom):
-            package = cast(str, node.module)
-            module = importlib.import_module(package)
-            contents = dict(inspect.getmembers(module))
-            for alias in node.names:
-                name = alias.name
-                el = contents[name]
-                if isinstance(el, float):
-                    ctx.symbols[name] = sympy.Float(el)
-                elif callable(el):
-                    ctx.fns[name] = el
-                elif isinstance(el, ModuleType):
-                    ctx.modules[name] = el
-                else:
-                    _LOGGER.debug("Skipping import %s", node)
         else:
-            _LOGGER.debug("Skipping node of type %s", type(node))
+            # Anything else might change the meaning of the function
+            msg = f"Statement type {type(node).__name__} not implemented"
+            raise NotImplementedError(msg)
 
-    # If we have pieces to combine into a Piecewise
-    if pieces:
-        return sympy.Piecewise(*pieces)
-
-    # If no return was found but we have assignments, return the last assigned variable
-    for node in reversed(body):
-        if isinstance(node, ast.Assign) and isinstance(node.targets[0], ast.Name):
-            target_name = node.targets[0].id
-            return ctx.symbols[target_name]
+    if continuation:
+        return _handle_block(continuation[0], ctx, continuation[1:])
 
     msg = "No return value found in function body"
     raise ValueError(msg)
+
+
+def _handle_fn_body(body: list[ast.stmt], ctx: Context) -> sympy.Expr | None:
+    return _handle_block(body, ctx)
 
 
 def _handle_expr(node: ast.expr, ctx: Context) -> sympy.Expr | None:
